@@ -396,9 +396,19 @@ pub fn ahead_family(id0: usize, rng: &mut Rng, out: &mut Vec<String>) {
             r.method = "POST".into();
             a.as_reader = 1;
             a.read_total = blen + 1;
+            // the application may take its time before it reads the body: the successors wait for
+            // that, however long it is, and are delivered afterwards
+            if rng.chance(1, 5) {
+                a.delay_ms = verif_harness::connrun::PRE_DELAY + *rng.pick(&[5_500u64, 11_000]);
+            }
         } else {
-            match rng.below(4) {
+            match rng.below(5) {
                 0 => {}
+                4 => {
+                    // an explicit Content-Length: 0 is no body either
+                    g::set_body(rng, &mut r, g::Framing::Len, 0);
+                    r.method = "POST".into();
+                }
                 1 => {
                     g::set_body(rng, &mut r, g::Framing::Len, 1);
                     r.method = "POST".into();
@@ -553,7 +563,7 @@ pub fn midline_family(id0: usize, rng: &mut Rng, out: &mut Vec<String>) {
     }
     // ... and connections that stay open without getting anywhere: silent from the start, stalled in
     // the middle of a head or of a small body, or waiting after a request the server refused
-    let m = if rng.chance(1, 2) { rng.range(1, 4) } else { 0 };
+    let m = if rng.chance(1, 2) { *rng.pick(&[1usize, 2, 3, 4, 5, 6]) } else { 0 };
     for _ in 0..m {
         let p: &[u8] = *rng.pick(&[
             &b""[..],
